@@ -13,7 +13,7 @@ import time
 
 from .core import Ctx
 
-KINDS = ("coroVal", "coroRaise", "plainNone", "plainVal", "plainRaise", "notCallable", "plainZero", "plainFalse", "plainEmpty", "plainWraps")
+KINDS = ("coroVal", "coroRaise", "plainNone", "plainVal", "plainRaise", "notCallable", "plainZero", "plainFalse", "plainEmpty", "plainWraps", "shadowPlain", "shadowCoro")
 
 
 class Wrapped:
@@ -23,6 +23,23 @@ class Wrapped:
     def __init__(self):
         self.owner_ident = None
         self.log = []          # owner log (written by whichever thread runs the body)
+        # instance attributes shadowing class-defined methods of the other kind: what counts is the attribute actually fetched
+
+        def shadow_plain(i):
+            self._rec(i)
+
+        async def shadow_coro(i):
+            self._rec(i)
+            await asyncio.sleep(0)
+            return i
+        self.shadowPlain = shadow_plain
+        self.shadowCoro = shadow_coro
+
+    async def shadowPlain(self, i):       # (class level: a coroutine method; shadowed per instance by a plain function)
+        raise AssertionError("class-level shadowPlain must not run")
+
+    def shadowCoro(self, i):              # (class level: a plain method; shadowed per instance by a coroutine function)
+        raise AssertionError("class-level shadowCoro must not run")
 
     def _rec(self, i):
         self.log.append({"a": "exec", "i": i, "thread": "owner" if threading.get_ident() == self.owner_ident else "caller"})
